@@ -54,7 +54,7 @@ theorem clock_opLock (db : DB) (c : Cmd) : clock (opLock db c).1 = clock db := b
   unfold opLock
   cases hb : classifyLock db c <;> simp only [applyLock] <;>
     (try rfl) <;> (try (split <;> simp [clock_setKey, clock_wake, clock_grantHold, clock_updateHold] <;> rfl))
-  all_goals (simp only [clock_setKey, clock_updateHold]; try rfl)
+  all_goals (simp only [clock_setKey, clock_wake, clock_updateHold]; try rfl)
   all_goals (first | exact clock_updateHold _ _ _ | skip)
 
 theorem clock_opUnlock (db : DB) (c : Cmd) : clock (opUnlock db c).1 = clock db := by
@@ -96,8 +96,9 @@ theorem mem_allW_rearmWaiter {db : DB} {w x : Waiter} (h : x ∈ allW (rearmWait
 theorem mem_allW_fireTimeout {db : DB} {key : Nat} {w x : Waiter} (h : x ∈ allW (fireTimeout db key w).1) : x ∈ allW db := by
   unfold fireTimeout at h
   rcases mem_allW_setKey h with h1 | h1
-  · exact mem_allW_of_keys_eq rfl h1
-  · exact mem_getKey_waiters (mem_removeWaiter h1)
+  · refine mem_allW_of_keys_eq ?_ h1; simp [wake_keys]
+  · have h2 := mem_removeWaiter (wake_waiters _ _ _ x h1)
+    exact mem_getKey_waiters (n := key) h2
 
 theorem mem_allW_fireExpire {db : DB} {key : Nat} {hd : Hold} {x : Waiter} (h : x ∈ allW (fireExpire db key hd).1) : x ∈ allW db := by
   unfold fireExpire at h
@@ -158,7 +159,8 @@ theorem mem_allW_updateHoldIn {db : DB} {h h' : Hold} {x : Waiter} (hx : x ∈ a
 
 theorem clock_rearmHold (db : DB) (h : Hold) : clock (rearmHold db h) = clock db := rfl
 
-theorem clock_fireTimeout (db : DB) (key : Nat) (w : Waiter) : clock (fireTimeout db key w).1 = clock db := rfl
+theorem clock_fireTimeout (db : DB) (key : Nat) (w : Waiter) : clock (fireTimeout db key w).1 = clock db := by
+  unfold fireTimeout; simp only [clock_setKey, clock_wake]; rfl
 
 theorem clock_fireExpire (db : DB) (key : Nat) (h : Hold) : clock (fireExpire db key h).1 = clock db := by
   unfold fireExpire; simp only [clock_setKey, clock_wake]; rfl
